@@ -386,6 +386,31 @@ def _arg(table, rng, kind: str, key, factory):
     return obj
 
 
+def _sharing(rng):
+    """cell factory for ONE call taking a list of cells: half of the time equal cells of the list are the very same Cell
+    object, and equal lines the very same list (the library copies its arguments by default: no difference may show)"""
+    share = rng is not None and rng.random() < 0.5
+    cells: dict = {}
+    lines: dict = {}
+
+    def cell(v):
+        if not share:
+            return make_cell(v)
+        if v not in cells:
+            cells[v] = make_cell(v)
+        return cells[v]
+
+    def line(vs):
+        if not share:
+            return [cell(v) for v in vs]
+        k = tuple(vs)
+        if k not in lines:
+            lines[k] = [cell(v) for v in vs]
+        return lines[k]
+
+    return cell, line
+
+
 def apply_op(table, o: dict, rng: random.Random | None = None, enc: str = "max"):
     """Apply one Grid.tla operation record to a real Table."""
     op = o["op"]
@@ -410,7 +435,7 @@ def apply_op(table, o: dict, rng: random.Random | None = None, enc: str = "max")
     alt = rng is not None and rng.random() < 0.35  # the sibling method documented as equivalent
     if op == "set_row":
         if alt and o["n"] == 1:
-            return table.set_row_cells(o["y"], [make_cell(c) for c in o["r"]])
+            return table.set_row_cells(o["y"], _sharing(rng)[1](o["r"]))
         return table.set_row(o["y"], make_row(o["r"], o["n"], enc, rng))
     if op == "insert_row":
         return table.insert_row(o["y"], make_row(o["r"], o["n"], enc, rng))
@@ -422,7 +447,8 @@ def apply_op(table, o: dict, rng: random.Random | None = None, enc: str = "max")
         return table.set_row_values(o["y"], [pyval(v) for v in o["r"]])
     if op == "set_values":
         if alt:
-            return table.set_cells([[make_cell(v) for v in line] for line in o["m"]], (o["x"], o["y"]))
+            mk_line = _sharing(rng)[1]
+            return table.set_cells([mk_line(line) for line in o["m"]], (o["x"], o["y"]))
         m = [[pyval(v) for v in line] for line in o["m"]]
         return table.set_values(m, (o["x"], o["y"]))
     if op == "insert_column":
@@ -436,7 +462,7 @@ def apply_op(table, o: dict, rng: random.Random | None = None, enc: str = "max")
     if op == "set_column_cells":
         if alt and S not in o["r"]:
             return table.set_column_values(o["x"], [pyval(c) for c in o["r"]])
-        return table.set_column_cells(o["x"], [make_cell(c) for c in o["r"]])
+        return table.set_column_cells(o["x"], _sharing(rng)[1](o["r"]))
     if op == "clear":
         return table.clear()
     if op == "extend_rows":
@@ -469,7 +495,7 @@ def apply_row_op(row, o: dict, rng: random.Random | None = None):
         return row.delete_cell(o["x"])
     if op == "row_set_values":
         if alt:
-            return row.set_cells([make_cell(v) for v in o["r"]], start=o["x"])
+            return row.set_cells(_sharing(rng)[1](o["r"]), start=o["x"])
         return row.set_values([pyval(v) for v in o["r"]], start=o["x"])
     if op == "row_rstrip":
         return row.rstrip(aggressive=bool(o["c"]))
